@@ -106,6 +106,8 @@ CHECKS = {
                 "spacing is such a zone, for any number of pairs and rows (C08_rearrange_on_every_two_column_layout, over Model.Builders; the real zone "
                 "coordinates are compared with the builder model per layout); 'every accepted rearrange call is "
                 "executable' is REFUTED in Coq with a witness (pair pitch 6: known finding). "
+                "move_by_waypoints is modelled too (waypoints_model, compared per call incl. waypoint lists of mixed shapes): with pick and drop its path is a "
+                "transport for ANY waypoints, and a move split over two calls glues into the path of one call over the concatenated waypoints. "
                 "PROVED for moves played in several legs (move_by_waypoints with pick on the first call and drop on the last): consecutive paths glued at "
                 "the waypoint they share simulate EXACTLY like the sequence of legs, from every state (merge_legs_sound), so the transport theorem "
                 "applies through the recogniser legs_transport_ok, evaluated in Coq on every two- and three-leg call. "
@@ -118,7 +120,7 @@ CHECKS = {
                 "empty lists); each accepted call's played paths go through the simulator with the compatible occupancy; valid input must be "
                 "accepted, executable and end where the docstring says, invalid input must be rejected or still be executable. The Gallina "
                 "simulator is run by vm_compute on the same paths and must print the same verdict and final occupancy as the Python simulator.",
-        "note": NOTE_COMMON + " The library kernels are executed (kirin interpreter), not modelled in Coq: for the CZ move, rearrange, pick-and-drop waypoint moves and the Gemini vertical shift the all-inputs claim rests on the parametric theorems plus the per-call shape recognition over the enumerated calls (these kernels are straight-line code, so the shape of their path does not depend on the input); for the CZ move and rearrange the kernels are also modelled in Gallina (Model/LibMoves.v, nat index lists, exact rationals) and that model is tied to the code by comparing verdict and paths on every enumerated call; negative indices, the waypoint moves, the Gemini moves' grids and multi-leg transports are exhaustive only within the enumerated bounds. The simulator is this development's definition of executability (no such oracle exists in the repo).",
+        "note": NOTE_COMMON + " The library kernels are executed (kirin interpreter), not modelled in Coq: for the CZ move, rearrange, pick-and-drop waypoint moves and the Gemini vertical shift the all-inputs claim rests on the parametric theorems plus the per-call shape recognition over the enumerated calls (these kernels are straight-line code, so the shape of their path does not depend on the input); for the CZ move, rearrange and move_by_waypoints the kernels are also modelled in Gallina (Model/LibMoves.v, nat index lists, exact rationals) and that model is tied to the code by comparing verdict and paths on every enumerated call; negative indices, a single pick/drop flag on its own and the Gemini moves (a fixed layout: exhaustive in the thorough tier) stay enumerated. The simulator is this development's definition of executability (no such oracle exists in the repo).",
         "technique": "Coq theorems over an AOD simulator model (conservation/acceptance invariants; parametric round-trip and transport theorems for the CZ / rearrange / waypoint moves with verified recognisers) + exhaustive bounded enumeration of library calls + vm_compute correspondence of the two simulators",
     },
     "C09": {
